@@ -55,3 +55,6 @@ func walkExpr(x cypher.Expression, visit func(cypher.Expression)) {
 	}
 	rec(reflect.ValueOf(x))
 }
+
+// WalkModel visits every syntax node below x (exported for the checkers' query analysis).
+func WalkModel(x any, visit func(cypher.Expression)) { walkExpr(x, visit) }
